@@ -335,9 +335,13 @@ def run(ctx):
     for k in (1, 2, 3):
         for t in R.all_trees("abcd"[:k]):
             S.append(("S", R.to_json(t), 2, lens_all(k, range(0, 4) if th else range(0, 3))))
+    two = [(2, 2, 2, 2), (1, 2, 2, 1)]
     for t in R.all_trees("abcd"):
-        S.append(("S", R.to_json(t), 2 if th else 1,
-                  lens_all(4, (1, 2)) if th else [(2, 2, 2, 2), (1, 2, 2, 1)]))
+        if th:
+            S.append(("S", R.to_json(t), 2, two + [(2, 1, 2, 2)]))
+            S.append(("S", R.to_json(t), 1, [l for l in lens_all(4, (1, 2)) if l not in two + [(2, 1, 2, 2)]]))
+        else:
+            S.append(("S", R.to_json(t), 1, two))
     for k in (1, 2, 3):
         for t in R.all_trees("bcd"[:k]):
             U.append(("U", R.to_json(t), 2 if (th or k < 3) else 1, lens_all(k, range(0, 3) if th else (1, 2))))
@@ -348,11 +352,13 @@ def run(ctx):
     for t in R.all_trees("bc"):
         A.append(("A", R.to_json(t), 2, [(2, 2), (1, 2), (0, 2)] if th else [(2, 2)]))
         W.append(("W", R.to_json(t), 2 if th else 1, [(2, 2)]))
-    for t in (R.all_trees("bcd") if th else R.trees("bcd")):
+    for t in R.trees("bcd"):
         A.append(("A", R.to_json(t), 2 if th else 1, [(2, 2, 2)] if th else [(1, 2, 2)]))
+        if th:
+            W.append(("W", R.to_json(t), 1, [(1, 2, 2)]))
     if th:
         for t in R.all_trees("bcd"):
-            W.append(("W", R.to_json(t), 1, [(1, 2, 2)]))
+            A.append(("A", R.to_json(t), 1, [(1, 2, 2)]))
         for t in R.all_trees("abcd"):
             A.append(("A", R.to_json(t), 0, [(1, 2, 2, 1)]))
     KW = []
@@ -363,8 +369,11 @@ def run(ctx):
     M = []
     for ctxname in ("task", "node-up", "node-plain"):
         M.append((ctxname, None))
-        for k in ((1, 2, 3) if th else ((1, 2) if ctxname != "node-plain" else (1,))):
+        for k in ((1, 2) if (th or ctxname != "node-plain") else (1,)):
             for t in R.all_trees("bcd"[:k]):
+                M.append((ctxname, R.to_json(t)))
+        if th:
+            for t in R.trees("bcd"):
                 M.append((ctxname, R.to_json(t)))
     ctx.rule = ("spellings: every ordered splitter tree (all bracketings) x <=2 inserted one-element wrappers, compared with "
                 "its normal form on every length vector of the bound, at 4 seams; non-trivial = spelling differs from its "
@@ -372,14 +381,16 @@ def run(ctx):
                 "valid request over the trees of the bound x 3 contexts; every one counts as non-trivial")
     ctx.coverage["bounds"] = dict(
         state=("k<=3: all trees x <=2 wrappers x lengths " + ("0-3" if th else "0-2") + "; k=4: all 1488 trees x " +
-               ("<=2 wrappers x lengths {1,2}^4" if th else "<=1 wrapper x 2 length vectors")),
+               ("<=1 wrapper x lengths {1,2}^4 and <=2 wrappers x 3 length vectors" if th else "<=1 wrapper x 2 length vectors")),
         upstream_state=("current splitter over k<=3 fields, all trees x <=2 wrappers x lengths 0-2" if th else
                         "current splitter over k<=2 fields x <=2 wrappers, k=3 x <=1 wrapper, all trees, lengths 1-2"),
-        api=("k<=3: all trees x <=2 wrappers; k=4 all bracketings, no wrappers" if th else
+        api=("k=1,2: all trees x <=2 wrappers; k=3: all trees x <=1 wrapper and all bracketings of one field order x <=2 "
+             "wrappers; k=4: all 1488 bracketings, no wrappers" if th else
              "k=1,2: all trees x <=2 wrappers; k=3: all bracketings of one field order x <=1 wrapper"),
-        workflow_node=("k<=2 all trees x <=2 wrappers; k=3 <=1 wrapper; keyword form k<=3" if th else
+        workflow_node=("k<=2 all trees x <=2 wrappers; k=3 bracketings of one field order x <=1 wrapper; keyword form k<=3" if th else
                        "k=1 <=2 wrappers, k=2 all trees x <=1 wrapper; keyword form k<=2"),
-        malformed=("trees over k<=3 fields x all single perturbations x {task, node after split node, node after plain node}"
+        malformed=("all trees over k<=2 fields + all bracketings of 3 fields in one order x all single perturbations x "
+                   "{task, node after split node, node after plain node}"
                    if th else "trees over k<=2 fields (k=1 after a plain node) x all single perturbations x 3 contexts"))
     for name, items in (("state", S), ("upstream_state", U), ("api", A), ("workflow_node", W)):
         ctx.coverage[f"{name}_trees"] = len(items)
@@ -388,6 +399,7 @@ def run(ctx):
     pmap(ctx, spelling_work, A + W, chunk=1)
     pmap(ctx, kw_work, KW, chunk=2)
     pmap(ctx, malformed_work, M, chunk=1)
+    _front_load(ctx)
     ctx.assumptions += [
         "two spellings 'agree' when both run the same ordered job list or both are rejected (error types are not compared)",
         "a job 'was executed' iff the instrumented task body logged a call or a python-* directory exists in the cache root; "
@@ -395,6 +407,15 @@ def run(ctx):
         "non-sequence split values (DESIGN.md) are not in the statement's list of ill-formed requests and are not checked",
         "split(**values) is taken as the spelling list(values) (that is the object Task.split stores)",
     ]
+
+
+def _front_load(ctx):
+    """one violation of every signature first, so that each signature gets a replay file"""
+    seen, first, rest = set(), [], []
+    for v in ctx.violations:
+        (rest if v[0] in seen else first).append(v)
+        seen.add(v[0])
+    ctx.violations[:] = first + rest
 
 
 def replay(ctx, case):
